@@ -1,6 +1,7 @@
 """Obligation generation, discharge, counter-example replay and the native (bounded) side of a contract."""
 from __future__ import annotations
 
+import ast
 import inspect
 import itertools
 import json
@@ -15,7 +16,7 @@ from fractions import Fraction
 import z3
 
 from . import engine as E
-from .dsl import Contract, Lemma, Ty, Const
+from .dsl import Contract, Lemma, Ty, Const, LoopUnit, NS
 from .strings import SStr
 
 QUICK_TIMEOUT_MS = 20000
@@ -228,30 +229,173 @@ def _native_spec(fn, values):
 
 
 def solve(pc, goal, timeout_ms):
-    """Is pc => goal valid?  returns (status, model|None, backend, seconds, size)."""
+    """Is pc => goal valid?  returns (status, model|None, backend, seconds, size).
+    Portfolio: z3 5.1 (API, short budget) -> /usr/bin/z3 4.8.12 -> int-relaxed z3 -> cvc5 -> z3 5.1 (full budget).
+    `unsat` from any back end discharges; `sat` is only accepted with a model the API solver confirms."""
     t0 = time.time()
     s = z3.Solver()
-    s.set("timeout", timeout_ms)
     for c in pc:
         s.add(c)
     neg = z3.Not(goal) if not isinstance(goal, bool) else z3.BoolVal(not goal)
     s.add(neg)
-    size = len(s.sexpr())
+    smt_text = s.to_smt2()
+    size = len(smt_text)
+    first = min(timeout_ms, 4000)
+    s.set("timeout", first)
     r = s.check()
     if r == z3.unsat:
         return "unsat", None, "z3-" + z3.get_version_string(), time.time() - t0, size
     if r == z3.sat:
         return "sat", s.model(), "z3-" + z3.get_version_string(), time.time() - t0, size
-    # second opinion: cvc5 on the SMT-LIB2 rendering
-    st = _cvc5(s, timeout_ms)
+    if os.environ.get("PYVC_DUMP"):
+        with open(os.path.join(os.environ["PYVC_DUMP"], f"unknown_{abs(hash(smt_text))}.smt2"), "w") as f:
+            f.write(smt_text)
+    st, mtxt = _z3_old(smt_text, timeout_ms)
     if st == "unsat":
+        return "unsat", None, "z3-4.8.12", time.time() - t0, size
+    if st == "sat" and mtxt:
+        m = _confirm_model(s, mtxt)
+        if m is not None:
+            return "sat", m, "z3-4.8.12", time.time() - t0, size
+    # relaxation: Int constants read as Reals (drops integrality only => every model of the original is a
+    # model of the relaxation, so `unsat` carries over; `sat` here proves nothing and is discarded)
+    if _relaxed(smt_text, timeout_ms) == "unsat":
+        return "unsat", None, "z3-nlsat(int-relaxed)", time.time() - t0, size
+    if _cvc5(smt_text, timeout_ms) == "unsat":
         return "unsat", None, "cvc5", time.time() - t0, size
-    return "unknown", None, "z3+cvc5", time.time() - t0, size
+    if timeout_ms > first:
+        s.set("timeout", timeout_ms)
+        r = s.check()
+        if r == z3.unsat:
+            return "unsat", None, "z3-" + z3.get_version_string(), time.time() - t0, size
+        if r == z3.sat:
+            return "sat", s.model(), "z3-" + z3.get_version_string(), time.time() - t0, size
+    return "unknown", None, "z3+z3old+cvc5", time.time() - t0, size
 
 
-def _cvc5(solver, timeout_ms):
+def _z3_old(smt_text, timeout_ms):
     try:
-        smt = "(set-logic ALL)\n" + solver.sexpr() + "\n(check-sat)\n"
+        txt = smt_text.replace("(check-sat)", "(check-sat)\n(get-model)")
+        with tempfile.NamedTemporaryFile("w", suffix=".smt2", delete=False, dir=os.environ.get("PYVC_TMP", None)) as f:
+            f.write(txt)
+            path = f.name
+        try:
+            out = subprocess.run(["/usr/bin/z3", f"-T:{max(2, timeout_ms // 1000)}", path], capture_output=True, text=True, timeout=timeout_ms / 1000 + 5)
+            lines = out.stdout.strip().splitlines()
+            first = (lines or [""])[0].strip()
+            return first, "\n".join(lines[1:])
+        finally:
+            os.unlink(path)
+    except Exception:
+        return "error", ""
+
+
+def _confirm_model(solver, model_text):
+    """Feed the constants of an external model back to the API solver to obtain a checked z3 model."""
+    import re
+
+    try:
+        solver.push()
+        decls = {}
+        for a in solver.assertions():
+            stack = [a]
+            seen = set()
+            while stack:
+                x = stack.pop()
+                if x.get_id() in seen:
+                    continue
+                seen.add(x.get_id())
+                if z3.is_const(x) and x.decl().kind() == z3.Z3_OP_UNINTERPRETED:
+                    decls[x.decl().name()] = x
+                if z3.is_app(x):
+                    stack.extend(x.children())
+        for m in re.finditer(r"\(define-fun (\S+) \(\) (\w+)\s+(.*?)\)\s*(?=\(define-fun|\)\s*$)", model_text, re.S):
+            name, sort, val = m.group(1), m.group(2), m.group(3).strip()
+            name = name.strip("|")
+            if name not in decls:
+                continue
+            c = decls[name]
+            try:
+                if sort == "Int":
+                    v = z3.IntVal(int(val.replace("(- ", "-").replace(")", "").replace(" ", "")))
+                elif sort == "Real":
+                    vv = val.replace("(- ", "-").replace("(/ ", "").replace(")", "").strip().split()
+                    neg = vv[0].startswith("-")
+                    nums = [x.lstrip("-") for x in vv]
+                    from fractions import Fraction as _F
+                    fr = _F(nums[0]) if len(nums) == 1 else _F(nums[0]) / _F(nums[1])
+                    v = z3.RealVal(-fr if neg else fr)
+                elif sort == "Bool":
+                    v = z3.BoolVal(val == "true")
+                else:
+                    continue
+                solver.add(c == v)
+            except Exception:
+                continue
+        solver.set("timeout", 5000)
+        r = solver.check()
+        m = solver.model() if r == z3.sat else None
+        solver.pop()
+        return m
+    except Exception:
+        try:
+            solver.pop()
+        except Exception:
+            pass
+        return None
+
+
+_RELAX_BLOCK = ("(div ", "(mod ", "(to_int ", "(is_int ", "(rem ", "String", "Array", "forall", "exists", "(declare-fun g_round")
+
+
+def _relaxed(smt_text, timeout_ms):
+    import re
+
+    if any(b in smt_text for b in _RELAX_BLOCK) or "() Int)" not in smt_text:
+        return "skip"
+    try:
+        txt = smt_text.replace("() Int)", "() Real)")
+        prev = None
+        while prev != txt:
+            prev = txt
+            txt = re.sub(r"\(to_real ([^()\s]+)\)", r"\1", txt)
+        if "to_real" in txt:
+            # to_real over compound integer terms: strip the wrapper textually (balanced)
+            out, i = [], 0
+            while i < len(txt):
+                if txt.startswith("(to_real ", i):
+                    depth, j = 0, i + len("(to_real ")
+                    k = j
+                    while True:
+                        ch = txt[k]
+                        if ch == "(":
+                            depth += 1
+                        elif ch == ")":
+                            if depth == 0:
+                                break
+                            depth -= 1
+                        k += 1
+                    out.append(txt[j:k])
+                    i = k + 1
+                else:
+                    out.append(txt[i])
+                    i += 1
+            txt = "".join(out)
+            if "to_real" in txt:
+                return "skip"
+        fs = z3.parse_smt2_string(txt)
+        s = z3.Solver()
+        s.set("timeout", max(2000, timeout_ms // 2))
+        s.add(fs)
+        r = s.check()
+        return str(r)
+    except Exception:
+        return "error"
+
+
+def _cvc5(smt_text, timeout_ms):
+    try:
+        smt = smt_text if "(set-logic" in smt_text else "(set-logic ALL)\n" + smt_text
         with tempfile.NamedTemporaryFile("w", suffix=".smt2", delete=False, dir=os.environ.get("PYVC_TMP", None)) as f:
             f.write(smt)
             path = f.name
@@ -268,6 +412,100 @@ def _cvc5(solver, timeout_ms):
             os.unlink(path)
     except Exception:
         return "error"
+
+
+# --------------------------------------------------------------------------- loop bodies as units
+
+
+def find_loop(func, anchor):
+    node = E.func_ast(func)
+    it = E.Interp(E.PathCtx([]))
+    hits = [n for n in ast.walk(node) if isinstance(n, (ast.For, ast.While)) and it.loop_key(n).startswith(anchor)]
+    if len(hits) != 1:
+        raise E.Undecided(f"loop anchor {anchor!r} matches {len(hits)} loops in {func.__qualname__}")
+    return hits[0]
+
+
+def _run_loop_body(it, c, vals):
+    """Execute the body of the anchored loop once, from the symbolic pre-iteration state `vals`."""
+    from . import lib
+
+    f = c.func
+    loop = find_loop(f, c.anchor)
+    pre = lib.h_deepcopy(it, vals)
+    module = inspect.getmodule(f)
+    genv = module.__dict__ if module else {}
+    env = E.Env(dict(vals), None, genv)
+    outcome, returned = "normal", None
+    try:
+        it.exec_block(loop.body, env)
+    except E._Continue:
+        outcome = "continue"
+    except E._Break:
+        outcome = "break"
+    except E._Return as r:
+        outcome, returned = "return", r.value
+    post = {k: v for k, v in env.vars.items() if not k.startswith("__")}
+    return ("return", NS(outcome=outcome, returned=returned, **post), pre)
+
+
+_LOOP_NATIVE = {}
+
+
+def loop_native(c, args):
+    """Compile the real loop body (from the file on disk) into a function of the state and run it."""
+    f = c.func
+    key = (c.id, f.__code__.co_filename)
+    if key not in _LOOP_NATIVE:
+        loop = find_loop(f, c.anchor)
+        import copy as _copy
+
+        body = _copy.deepcopy(loop.body)
+        src = ast.Module(
+            body=[
+                ast.FunctionDef(
+                    name="__step",
+                    args=ast.arguments(posonlyargs=[], args=[ast.arg(arg="__state")], kwonlyargs=[], kw_defaults=[], defaults=[]),
+                    body=ast.parse(
+                        "__o = None\n__ret = None\nlocals().update(__state)\n"
+                    ).body,
+                    decorator_list=[],
+                    type_params=[],
+                )
+            ],
+            type_ignores=[],
+        )
+        # locals().update does not create fast locals: bind the state names by explicit assignments instead
+        names = sorted(c.args)
+        fn = src.body[0]
+        fn.body = ast.parse("__o = None").body + [ast.parse(f"{n} = __state[{n!r}]").body[0] for n in names]
+        once = ast.parse("for __once in (0,):\n    pass\nelse:\n    if __o is None:\n        __o = 'continue'").body[0]
+        once.body = body + ast.parse("__o = 'normal'").body
+        fn.body.append(once)
+        fn.body += ast.parse("if __o is None:\n    __o = 'break'\nreturn __o, dict(locals())").body
+        ast.fix_missing_locations(src)
+        # `return` inside the body would leave __step early: rewrite Return(v) -> return ('return', {..., 'returned': v})
+        class _R(ast.NodeTransformer):
+            def visit_FunctionDef(self, n):
+                return n if n.name != "__step" else self.generic_visit(n)
+            def visit_Lambda(self, n):
+                return n
+            def visit_Return(self, n):
+                if getattr(n, "_own", False):
+                    return n
+                v = n.value or ast.Constant(None)
+                new = ast.parse("return 'return', dict(locals(), __returned=0)").body[0]
+                new.value.elts[1].keywords[0].value = v
+                return ast.copy_location(new, n)
+        fn.body[-1]._own = True
+        src = ast.fix_missing_locations(_R().visit(src))
+        module = inspect.getmodule(f)
+        g = dict(module.__dict__)
+        exec(compile(src, f.__code__.co_filename, "exec"), g)
+        _LOOP_NATIVE[key] = g["__step"]
+    o, loc = _LOOP_NATIVE[key](dict(args))
+    post = {k: v for k, v in loc.items() if not k.startswith("__")}
+    return NS(outcome=o, returned=loc.get("__returned"), **post)
 
 
 # --------------------------------------------------------------------------- proving one contract
@@ -292,37 +530,78 @@ class Prover:
     def _contract_applier(self, callee):
         def apply(it, args, kwargs):
             f = callee.func
-            node = E.func_ast(f)
-            loc = it.bind(node.args, args, kwargs, list(f.__defaults__ or ()), dict(f.__kwdefaults__ or {}), f.__name__)
+            if isinstance(f, type):
+                import dataclasses
+
+                names = [fl.name for fl in dataclasses.fields(f) if fl.init]
+                loc = dict(zip(names, args))
+                loc.update(kwargs)
+            else:
+                node = E.func_ast(f)
+                loc = it.bind(node.args, args, kwargs, list(f.__defaults__ or ()), dict(f.__kwdefaults__ or {}), f.__name__)
+            memo_key = None
+            if getattr(callee, "pure", False):
+                # a pure (deterministic, argument-preserving) function returns the same value for the same
+                # argument objects / terms within one path: one abstract result per argument tuple
+                def _k(v):
+                    return ("t", z3.simplify(v).get_id()) if E.is_sym(v) else ("o", id(v)) if not isinstance(v, (int, float, str, bool, type(None), Fraction)) else ("c", repr(v))
+                memo_key = (callee.name,) + tuple((n, _k(v)) for n, v in sorted(loc.items()))
+                cache = it.ctx.__dict__.setdefault("pure_cache", {})
+                if memo_key in cache:
+                    return cache[memo_key][0]
             if callee.requires is not None:
                 pre = _spec_call(it.ctx, callee.requires, loc)
                 it.ctx.oblige(f"call:{callee.name}.requires", it.truthy(pre) if not isinstance(pre, bool) else pre, {"kind": "callee-pre"})
                 it.ctx.assume(it.truthy(pre) if not isinstance(pre, bool) else pre)
+            for exc_cls, cond_fn in callee.raises.items():
+                cnd = _spec_call(it.ctx, cond_fn, loc)
+                if it.ctx.decide(it.truthy(cnd) if not isinstance(cnd, bool) else cnd, "callee-raises"):
+                    raise E.PyRaise(exc_cls, (f"per contract {callee.name}",))
             if callee.returns is None:
                 raise E.Undecided(f"contract {callee.name} has no `returns` type for modular use")
             it.ctx.fresh_n += 1
-            res = callee.returns.make(f"ret:{callee.name}!{it.ctx.fresh_n}", it.ctx)
+            rty = callee.returns(loc) if callable(callee.returns) and not isinstance(callee.returns, Ty) else callee.returns
+            res = rty.make(f"ret:{callee.name}!{it.ctx.fresh_n}", it.ctx)
             vals = dict(loc, result=res)
             for en, efn in callee.ensures.items():
                 post = _spec_call(it.ctx, efn, vals)
                 it.ctx.assume(it.truthy(post) if not isinstance(post, bool) else post)
+            if memo_key is not None:
+                it.ctx.__dict__.setdefault("pure_cache", {})[memo_key] = (res, loc)
             return res
 
         return apply
 
     # ---- symbolic side
-    def prove(self, c) -> UnitResult:
+    def n_shapes(self, c):
+        if getattr(c, "bounded_only", False):
+            return 0
+        return sum(1 for _ in _shape_product(c.args_for(self.tier)))
+
+    def prove(self, c, only_shape=None, native=True) -> UnitResult:
+        """only_shape: index of the single shape to prove (parallel driver); None = all shapes."""
         t0 = time.time()
         ur = UnitResult(c)
         try:
-            self._record_source(c, ur)
+            try:
+                self._record_source(c, ur)
+            except E.Undecided as u:
+                o = Obl(f"{c.id}/extraction", "subset")
+                o.status, o.detail = "undecided", str(u)
+                ur.obls.append(o)
+                ur.undecided_reasons.append(str(u))
+                ur.wall_s = time.time() - t0
+                return ur
             if not getattr(c, "bounded_only", False):
-                for shape in _shape_product(c.args):
+                for k, shape in enumerate(_shape_product(c.args_for(self.tier))):
+                    if only_shape is not None and k != only_shape:
+                        continue
                     ur.shapes += 1
                     self._prove_shape(c, shape, ur)
                     if len([o for o in ur.obls if o.status == "violated"]) >= 3:
                         break
-            self._native_side(c, ur)
+            if native:
+                self._native_side(c, ur)
         except Exception as ex:  # checker error, never a violation
             ur.errors.append("".join(traceback.format_exception(type(ex), ex, ex.__traceback__))[-1500:])
         ur.wall_s = time.time() - t0
@@ -341,7 +620,11 @@ class Prover:
             node = E.func_ast(f)
             path = f.__code__.co_filename
             _, sha, text = E.parse_file(path)
+            if isinstance(c, LoopUnit):
+                node = find_loop(f, c.anchor)
         ur.source = dict(file=path, sha256=sha, qualname=f.__qualname__, lines=[node.lineno, node.end_lineno])
+        if isinstance(c, LoopUnit):
+            ur.source["loop"] = c.anchor
 
     def _prove_shape(self, c, shape, ur):
         is_lemma = isinstance(c, Lemma)
@@ -353,10 +636,15 @@ class Prover:
             try:
                 vals = {n: t.make(n, ctx) for n, t in shape.items()}
                 ctx.arg_values = vals
-                if c.requires is not None:
-                    pre = _spec_call(ctx, c.requires, vals, contracts)
+                for rq in c.all_requires():
+                    pre = _spec_call(ctx, rq, vals, contracts)
                     ctx.assume(it.truthy(pre) if not isinstance(pre, bool) else pre)
+                # obligations raised while evaluating the precondition text (callee preconditions inside
+                # `requires`) are about the contract, not the code: they are re-checked natively by replay
+                ctx.obligations = [o for o in ctx.obligations if not o[0].startswith("call:")] if getattr(c, "drop_requires_obligations", True) else ctx.obligations
                 ctx.n_pre = len(ctx.pc)
+                if isinstance(c, LoopUnit):
+                    return _run_loop_body(it, c, vals)
                 fn = c.body if is_lemma else c.func
                 params = list(inspect.signature(fn).parameters)
                 kw = {p: vals[p] for p in params if p in vals}
@@ -534,6 +822,8 @@ class Prover:
     def call_native(self, c, args):
         if isinstance(c, Lemma):
             return _native_spec(c.body, args)
+        if isinstance(c, LoopUnit):
+            return loop_native(c, args)
         if c.native_call is not None:
             return _native_spec(c.native_call, args)
         f = c.func
@@ -543,8 +833,9 @@ class Prover:
     def native_check(self, c, args):
         """Check the contract on concrete arguments against the REAL function.  status: ok|fail|skip."""
         try:
-            if c.requires is not None and not _native_spec(c.requires, args):
-                return dict(status="skip", detail="requires does not hold")
+            for rq in c.all_requires():
+                if not _native_spec(rq, args):
+                    return dict(status="skip", detail="requires does not hold")
         except Exception as ex:
             return dict(status="skip", detail=f"requires raised {type(ex).__name__}: {ex}")
         import copy
@@ -617,7 +908,7 @@ class Prover:
                     ur.obls.append(o)
                 ur.native["failures"].append(dict(args=encode(args), detail=v["detail"][:300]))
             # concolic cross-check of the engine against CPython on a sample of the witnesses
-            if not isinstance(c, Lemma) and (n <= 40 or n % 97 == 0) and not c.bounded_only:
+            if not isinstance(c, (Lemma, LoopUnit)) and (n <= 40 or n % 97 == 0) and not c.bounded_only:
                 self._crosscheck(c, args, ur)
         ur.native["evaluations"] = n
         ur.native["distinct"] = len(seen)
@@ -628,8 +919,9 @@ class Prover:
         import copy
 
         try:
-            if c.requires is not None and not _native_spec(c.requires, args):
-                return
+            for rq in c.all_requires():
+                if not _native_spec(rq, args):
+                    return
         except Exception:
             return
         try:
